@@ -104,6 +104,15 @@ def run(ctx):
         ctx.obligation("translate", False, str(ex))
         ctx.violation("translate", "translator rejected the source: %s (the table theorems are not re-proved; the implementation-side specification checks below still run)" % ex,
                       {"construct": str(ex)}, found_input=False)
+    # the implementation-side harness only needs the translated tables: run it concurrently with
+    # the Coq compilation (one extra process)
+    import concurrent.futures
+    req = {"seed": ctx.seed, "tier": ctx.tier}
+    if tr is not None:
+        req["tables"] = {c: {cfg["cfg"]: {"advertised": cfg["advertised"], "table": {k: jsonable(v) for k, v in cfg["table"].items()}} for cfg in rec["configs"]}
+                         for c, rec in tr["classes"].items()}
+    pool = concurrent.futures.ThreadPoolExecutor(max_workers=1)
+    harness = pool.submit(ctx.impl_python, os.path.join(common.VERIF, "corr", "c16_impl.py"), (), 1500, json.dumps(req))
     ctx.copy_props("C16/C16_wiring.v", "C16/C16_vonmises.v", "C16/C16_convert.v", "C16/C16_energy.v")
     rw = rv = None
     if tr is not None:
@@ -119,14 +128,21 @@ def run(ctx):
             ctx.violation("gen-does-not-compile", "generated Gen_Results.v does not compile", {"log": rg.log[-3000:]}, found_input=False)
             tr = None
         else:
-            rw = ctx.coq(["C16_wiring.v"], timeout=600)
-            rv = ctx.coq(["C16_vonmises.v"], timeout=600)
+            # independent files: two at a time
+            cq = concurrent.futures.ThreadPoolExecutor(max_workers=2)
+            f_w = cq.submit(ctx.coq, ["C16_wiring.v"], 600)
+            f_v = cq.submit(ctx.coq, ["C16_vonmises.v"], 600)
+            f_c = cq.submit(ctx.coq, ["C16_convert.v"], 600)
+            f_e = cq.submit(ctx.coq, ["C16_energy.v"], 600)
+            rw, rv, rc, re_ = f_w.result(), f_v.result(), f_c.result(), f_e.result()
+            cq.shutdown()
     # these two do not depend on the generated tables
-    rc = ctx.coq(["C16_convert.v"], timeout=600)
-    re_ = ctx.coq(["C16_energy.v"], timeout=600)
+    if tr is None:
+        rc = ctx.coq(["C16_convert.v"], timeout=600)
+        re_ = ctx.coq(["C16_energy.v"], timeout=600)
     # end-to-end energy identity / reaction balance (on EFLib.C02_QuadForm) with the facts about
     # the source (thickness rule, quadrature rule, psi = 1/2 sigma.eps) regenerated every run
-    ree = None
+    ree = rfl = rst = None
     try:
         en = T_en.translate(ctx.repo)
         ctx.obligation("translate:energy-facts", True, json.dumps(en))
@@ -135,7 +151,15 @@ def run(ctx):
         ctx.copy_props("C16/C16_energy_e2e.v")
         rge = ctx.coq(["Gen_Energy.v"], timeout=120)
         if rge.ok:
-            ree = ctx.coq(["C16_energy_e2e.v"], timeout=600)
+            ctx.copy_props("C16/C16_strain.v", "C16/C16_fields.v")
+            cq = concurrent.futures.ThreadPoolExecutor(max_workers=2)
+            f_ee = cq.submit(ctx.coq, ["C16_energy_e2e.v"], 600)
+            f_st = cq.submit(ctx.coq, ["C16_strain.v"], 300)
+            # strain / stress arrays and the mean-over-Gauss-points semantics of the results
+            f_fl = cq.submit(ctx.coq, ["C16_fields.v"], 300) if (rv is not None and rv.ok) else None
+            ree, rst = f_ee.result(), f_st.result()
+            rfl = f_fl.result() if f_fl is not None else None
+            cq.shutdown()
     except (TranslateError, SyntaxError, OSError) as ex:
         ctx.obligation("translate:energy-facts", False, str(ex))
         ctx.violation("translate:energy-facts", "translator rejected the energy-related source: %s (energy_identity_e2e is not re-proved; the implementation-side energy checks still run)" % ex,
@@ -147,11 +171,8 @@ def run(ctx):
     # informational only: dead branches are outside the property (no obligation, no violation)
     ctx.cov["info_unadvertised_branches"] = ["%s.Result: branch %r is never advertised (unreachable)" % tuple(x) for x in (fails["UNADVERTISED_BRANCHES"] or [])]
     # ---- 3. correspondence ---------------------------------------------------------------
-    req = {"seed": ctx.seed, "tier": ctx.tier}
-    if tr is not None:
-        req["tables"] = {c: {cfg["cfg"]: {"advertised": cfg["advertised"], "table": {k: jsonable(v) for k, v in cfg["table"].items()}} for cfg in rec["configs"]}
-                         for c, rec in tr["classes"].items()}
-    rcode, out, err = ctx.impl_python(os.path.join(common.VERIF, "corr", "c16_impl.py"), input=json.dumps(req), timeout=1500)
+    rcode, out, err = harness.result()
+    pool.shutdown()
     cases = []
     if rcode != 0 or "@@JSON@@" not in out:
         ctx.obligation("corr:harness", False, (err or out)[-1500:])
@@ -227,7 +248,7 @@ def run(ctx):
                 report_name(cls, cfg, name, "advertised name without a working branch")
             if not (fails["WIRING_FAILURES"] or fails["BRANCH_FAILURES"]):
                 ctx.violation("proof-broken:C16_wiring.v", "C16_wiring.v fails although no witness was printed", {"log": rw.log[-3000:]}, found_input=False)
-    for r, f in ((rv, "C16_vonmises.v"), (rc, "C16_convert.v"), (re_, "C16_energy.v"), (ree, "C16_energy_e2e.v")):
+    for r, f in ((rv, "C16_vonmises.v"), (rc, "C16_convert.v"), (re_, "C16_energy.v"), (ree, "C16_energy_e2e.v"), (rfl, "C16_fields.v"), (rst, "C16_strain.v")):
         if r is not None and not r.ok:
             # von Mises: look for a concrete component assignment where the code's formula differs
             found = None
